@@ -79,8 +79,24 @@ class Kit:
         self.tmp = None
 
     def rdms(self, n_rdm=4, n_cond=6, nan=False, positive=True):
+        if self.variant == 2 and not nan and n_cond >= 3:
+            # the argument is itself a derived object (conditions selected out of a larger RDMs object): its
+            # library-managed 'index' is not 0..n-1 and it may share containers with the object it came from --
+            # the normal state of affairs in a multi-step analysis
+            big = gen.rdm_vectors(self.rng, n_rdm, n_cond + 2, 'eucl' if positive else 'neg')
+            labels = [f'c{i}' for i in range(n_cond)]
+            labels.insert(2, 'x1')
+            labels.insert(0, 'x0')
+            self.parent = RDMs(big, dissimilarity_measure='squared euclidean', descriptors={'exp': 'e', 'w0': 1.5},
+                               rdm_descriptors={'subj': gen.wrap([f's{i % 2}' for i in range(n_rdm)], self.cont),
+                                                'uid': gen.wrap(list(range(10, 10 + n_rdm)), self.cont),
+                                                'wt': gen.wrap([float(i + 1) for i in range(n_rdm)], self.cont)},
+                               pattern_descriptors={'cond': gen.wrap(labels, self.cont),
+                                                    'cat': gen.wrap([0 if lab[0] == 'x' else int(lab[1:]) % 2
+                                                                     for lab in labels], self.cont)})
+            return self.parent.subset_pattern('cond', [f'c{i}' for i in range(n_cond)])
         v = gen.rdm_vectors(self.rng, n_rdm, n_cond, 'eucl' if positive else 'neg')
-        if nan or (self.variant == 2 and False):
+        if nan:
             v[:, [1, 4]] = np.nan
         return RDMs(v, dissimilarity_measure='squared euclidean', descriptors={'exp': 'e', 'w0': 1.5},
                     rdm_descriptors={'subj': gen.wrap([f's{i % 2}' for i in range(n_rdm)], self.cont),
@@ -386,9 +402,16 @@ def apply_inplace(obj, rng):
     """yield (name, thunk) of documented in-place operations / array writes applicable to obj"""
     ops = []
     if isinstance(obj, RDMs) and obj.n_cond >= 2:
+        key = [k for k in obj.pattern_descriptors if k != 'index']
+        # operations that leave the order as it is come first: they do not disturb whatever the object still shares
+        # with the object it was derived from, so the later operations meet the same state
+        if key and len(set(map(str, obj.pattern_descriptors[key[0]]))) == obj.n_cond:
+            # sorting into the order the object is already in (e.g. "make sure it is sorted" before plotting)
+            cur = list(obj.pattern_descriptors[key[0]])
+            ops.append(('sort_by_present_order', lambda: obj.sort_by(**{key[0]: cur})))
+        ops.append(('reorder_identity', lambda: obj.reorder(list(range(obj.n_cond)))))
         order = list(range(obj.n_cond))[::-1]
         ops.append(('reorder', lambda: obj.reorder(order)))
-        key = [k for k in obj.pattern_descriptors if k != 'index']
         if key:
             ops.append(('sort_by', lambda: obj.sort_by(**{key[0]: 'alpha'})))
         else:
@@ -497,13 +520,13 @@ def run_callable(ctx, short, fn, cls, builder, variant):
         # in-place ops on the result must leave the sources alone
         for r in results[:3]:
             for name, thunk in apply_inplace(r, rng):
-                fb = [fingerprint(s) for s in sources]
+                fb = [fingerprint(s, index=True) for s in sources]
                 try:
                     thunk()
                 except Exception:
                     continue
                 ctx.case('inplace_on_result_leaves_source', dict(sig, op=name))
-                if [fingerprint(s) for s in sources] != fb:
+                if [fingerprint(s, index=True) for s in sources] != fb:
                     ctx.fail('inplace_on_result_leaves_source', dict(sig, what='source_changed', op=name),
                              f'{name} on the result of {short} altered the source object', wit(op=name))
                     return True
@@ -522,13 +545,13 @@ def run_callable(ctx, short, fn, cls, builder, variant):
             return True
         for s in objects_in(a3)[:3]:
             for name, thunk in apply_inplace(s, rng):
-                fb = [fingerprint(r) for r in r3]
+                fb = [fingerprint(r, index=True) for r in r3]
                 try:
                     thunk()
                 except Exception:
                     continue
                 ctx.case('inplace_on_source_leaves_result', dict(sig, op=name))
-                if [fingerprint(r) for r in r3] != fb:
+                if [fingerprint(r, index=True) for r in r3] != fb:
                     ctx.fail('inplace_on_source_leaves_result', dict(sig, what='result_changed', op=name),
                              f'{name} on an argument of {short} altered the object it had returned', wit(op=name))
                     return True
